@@ -68,7 +68,14 @@ impl Code {
 			}
 			if interests.local_variable_table || interests.local_variable_type_table {
 				if let Some(local_variables) = self.local_variables {
-					code_visitor.visit_local_variables(local_variables)?;
+					// Reading a class file only gives the entries of the tables the visitor is interested in.
+					let mut wanted = Vec::with_capacity(local_variables.len());
+					for lv in local_variables {
+						if (interests.local_variable_table && lv.descriptor.is_some()) || (interests.local_variable_type_table && lv.signature.is_some()) {
+							wanted.push(lv);
+						}
+					}
+					code_visitor.visit_local_variables(wanted)?;
 				}
 			}
 
